@@ -15,7 +15,7 @@ EXPLANATION = (
     'EffectId overflow, the unreachable after the discriminant test, and the documented panic on an id that names no outstanding request '
     '(outside the property\'s input domain); R12.e both bincode deserialisers are built with from_slice, whose length prefixes are '
     'checked against the remaining input; R12.f errors that blame the input (DeserializeEvent, DeserializeOutput, ProcessResponse) are produced only '
-    'before any call that can enter the core, so a rejected input has not been applied. Panics, hangs or allocation inside user Deserialize impls and serde_json are not decided. R12.c resume() touches only the addressed entry and frees it only when it can no longer be resolved, and every effect — notifications included — is announced under the slab key of its own entry, so a stray response never meets another request (shared with C09 R09.a/b). R12.i the wire types decoded from shell input derive their serde impls and carry only wire-neutral attributes: no conversion code of crux\'s own runs inside deserialisation (shared with C10).')
+    'before any call that can enter the core, so a rejected input has not been applied. Panics, hangs or allocation inside user Deserialize impls and serde_json are not decided. R12.c resume() touches only the addressed entry and frees it only when it can no longer be resolved, and every effect — notifications included — is announced under the slab key of its own entry, so a stray response never meets another request (shared with C09 R09.a/b). R12.i the wire types decoded from shell input derive their serde impls and carry only wire-neutral attributes: no conversion code of crux\'s own runs inside deserialisation (shared with C10). R12.i is the wire-type rule of C10 (R10.a-c) run over every type decoded from shell input.')
 
 BOUNDARY_ERRORS = ('crux_core::bridge::BridgeError', 'erased_serde::error::Error', 'crux_core::core::resolve::ResolveError',
                    'bincode::error::ErrorKind', 'alloc::boxed::Box<bincode::error::ErrorKind>')
